@@ -59,7 +59,10 @@ def make_world(ctx, rng, n):
         ntabs = rng.choice([1, 2, 3, 1, 2, 3, 11, 13, 22])     # also carts with two-digit tab numbers
         # (a tab separator is a line that STARTS with -->8; the same text later in a line is ordinary code/comment)
         decoy = rng.choice([b'', b'', b'\nx=1 -->8', b'\nprint("-->8")', b'\n -->8 indented', b'\n--->8', b'\ny=2 -- -->8 not a tab'])
-        code = b'\n-->8\n'.join(b'-- tab %d of %d\nt%d_%d=1' % (t, i, i, t) + (decoy if t % 2 == 0 else b'') for t in range(ntabs))
+        # ordinary code in the tabs: brackets, strings and comments that contain bracket pairs, long strings (none of it is a tab cut)
+        filler = [b'', b'', b'\ncell=grid[pos[1]][pos[2]]', b'\nt[u[1]]=2', b'\ns="[["', b'\n-- ]] x', b'\nx=[[a\nb]]', b'\n--[[ c\nd ]]',
+                  b'\nif (a) b=1', b'\nq={{1},{2}}', b'\nw="]]" .. \'[[\'']
+        code = b'\n-->8\n'.join(b'-- tab %d of %d\nt%d_%d=1' % (t, i, i, t) + rng.choice(filler) + (decoy if t % 2 == 0 else b'') for t in range(ntabs))
         code += rng.choice([b'\n', b''])
         if rng.random() < 0.3:
             code = b'#include nested.lua\n' + code      # includes inside included carts are not expanded
@@ -211,7 +214,8 @@ def run(ctx, res):
         cases.append({'op': 'matchinc', 'line': hx(l)})
         res.evaluations += 1
     for _ in range(ctx.budget(300, 5000)):
-        cl = [rng.choice([b'-->8\n', b'-->8 x\n', b'a=1\n', b'-- >8\n', b'\n', b'b=2', b'x=1 -->8\n', b' -->8\n', b'"-->8"\n', b'--->8\n']) for _ in range(rng.randrange(0, 8))]
+        cl = [rng.choice([b'-->8\n', b'-->8 x\n', b'a=1\n', b'-- >8\n', b'\n', b'b=2', b'x=1 -->8\n', b' -->8\n', b'"-->8"\n', b'--->8\n',
+                         b't[u[1]]=2\n', b's="[["\n', b'x=[[a\n', b'b]]\n', b'-- ]]\n', b'--[[\n', b'g[p[1]][p[2]]=0\n']) for _ in range(rng.randrange(0, 8))]
         sel = rng.choice([None, 0, 1, 2, 5])
         got = [l if l.endswith(b'\n') else l + b'\n' for l in p8.lines_for_tab(iter(cl), sel)]
         lines.append('tabs %s %s' % ('n' if sel is None else sel, ':'.join(hx(x) for x in cl) if cl else '.'))
